@@ -16,7 +16,9 @@ import (
 
 type fixedHasher struct{ h chainhash.Hash }
 
-func (a fixedHasher) BlockHash(*domains.BlockHeaderSource) domains.BlockHash { return domains.BlockHash(a.h) }
+func (a fixedHasher) BlockHash(*domains.BlockHeaderSource) domains.BlockHash {
+	return domains.BlockHash(a.h)
+}
 
 type recNotifier struct{ n int }
 
@@ -86,7 +88,9 @@ func faultyAdd(k int, staleParentOnly bool) {
 	vh.Assume(okW)
 
 	// the faulty run
-	mode := vh.Choose(2) // 0 = kill after the j-th commit, 1 = the j-th commit fails
+	// 0 = kill after the j-th commit, 1 = the j-th commit fails, 2 = the first write statement inside
+	// the j-th write transaction fails (error from the statement, the rollback then succeeds)
+	mode := vh.Choose(3)
 	j := 1 + vh.Choose(3)
 	db := hstore.Store(pre)
 	note := &recNotifier{}
@@ -95,11 +99,17 @@ func faultyAdd(k int, staleParentOnly bool) {
 	if mode == 0 {
 		vhdb.KillAfterCommit(db, j)
 		killed = vhdb.RunUntilKill(func() { _, ferr = chains(db, newHash, note).Add(bs) })
-	} else {
+	} else if mode == 1 {
 		vhdb.FailCommit(db, j)
+		_, ferr = chains(db, newHash, note).Add(bs)
+	} else {
+		vhdb.FailStatement(db, j)
 		_, ferr = chains(db, newHash, note).Add(bs)
 	}
 	hit := vhdb.WriteCount(db) >= j // the fault position was reached at all
+	if mode == 2 {
+		hit = vhdb.FaultFired(db)
+	}
 	vh.Observe("hit", hit)
 	vh.Observe("killed", killed)
 	db = vhdb.Reopen(db) // restart
@@ -118,7 +128,7 @@ func faultyAdd(k int, staleParentOnly bool) {
 	}
 	vh.Class("F1-fault-between-the-two-state-updates-of-a-reorganisation", vh.And(hit, j == 1, len(want) == k+1))
 	vh.Assert("C05/structurally-valid-after-fault", structurallyValid(mid))
-	vh.Assert("C05/failed-store-reports-error-and-no-event", vh.Implies(vh.And(mode == 1, hit), vh.And(ferr != nil, note.n == 0)))
+	vh.Assert("C05/failed-store-reports-error-and-no-event", vh.Implies(vh.And(mode >= 1, hit), vh.And(ferr != nil, note.n == 0)))
 
 	// (ii) redelivery of the same header after the restart
 	_, rerr := chains(db, newHash, &recNotifier{}).Add(bs)
